@@ -307,6 +307,20 @@ def exotic_world(base):
     return XWORLD
 
 
+def collision_world(base):
+    """files that lie where the Target of an EMBEDDED picture would point if it were resolved against the input's directory
+    (`media/p0.png` next to the document, as a tool leaves them that unpacks the pictures beside the .docx), with bytes that are
+    not the embedded ones.  Part of XWORLD: a document may also LINK to them, and only then are they read."""
+    for k in range(4):
+        path = os.path.join(base, "media", "p%d.png" % k)
+        os.makedirs(os.path.dirname(path), exist_ok=True)
+        data = SIGNATURES[k % 3] + b"BESIDE-THE-DOCUMENT" + bytes([210, k, 211])
+        with open(path, "wb") as f:
+            f.write(data)
+        XWORLD[path] = data
+    return XWORLD
+
+
 def literal_bytes(path):
     """what lies at exactly this path (the harness's own look at the file system, outside the audit); None if it cannot be read"""
     try:
@@ -386,6 +400,7 @@ def pictures_doc(rng, canary_dir, big=0.4, limit=300000):
     from gen_docx import big_bytes
     n = rng.randint(1, 4)
     pics, rels, parts, paras = [], [], [], []
+    same_target = [0]
     n_note = rng.randint(1, n) if rng.random() < 0.25 else 0
 
     def ext_rel(rid, target, type_=REL + "image"):
@@ -404,6 +419,12 @@ def pictures_doc(rng, canary_dir, big=0.4, limit=300000):
             pic["target"] = link_target(rng, pic["link"], k, canary_dir)
             if pic["link"] == "x":
                 pic["link"], pic["target"] = exotic_target(rng, canary_dir)
+            embedded_so_far = [j for j in range(k) if pics[j]["how"] != "linked"] + ([k] if how != "linked" else [])
+            if embedded_so_far and rng.random() < 0.15:
+                # the link is spelt exactly like the Target of an embedded picture of this document (of this very picture, when it
+                # is embedded and linked): an external relationship all the same - the file beside the document, not the part
+                pic["link"], pic["target"] = "rel-x", "media/p%d.png" % rng.choice(embedded_so_far)
+                same_target[0] += 1
             ext_rel("rIdL%d" % k, pic["target"])
         if how in ("vml", "vml-both"):
             attrs = [("r:id", "rIdE%d" % k)]
@@ -422,6 +443,28 @@ def pictures_doc(rng, canary_dir, big=0.4, limit=300000):
         ext_rel("rIdDecoy%d" % j, rng.choice(["file://" + os.path.join(canary_dir, "canary.txt"), "canary.txt", "http://127.0.0.1:9/evil.txt"]),
                 REL + rng.choice(["image", "attachedTemplate", "oleObject", "hyperlink", "aFChunk"]))
     body = [p for w, p in paras if w == "body"]
+    # EXTERNAL relationships (a hyperlink to "the picture as a separate file", an OLE link, a linked copy ...) whose Target is,
+    # character for character, the Target of an INTERNAL image relationship of the same part.  Whether a relationship is external
+    # is a property of that relationship (its Id), never of the Target string: the embedded pictures stay embedded, and the files
+    # that lie at those paths beside the document (collision_world) are not touched
+    emb = [k for k, p in enumerate(pics) if p["how"] != "linked"]
+    if emb and rng.random() < 0.4:
+        for k in rng.sample(emb, rng.randint(1, len(emb))):
+            spelt = "media/p%d.png" % k
+            if rng.random() < 0.25:
+                # ... both spelt as an absolute part name
+                spelt = "/word/media/p%d.png" % k
+                for r in rels:
+                    if r[0] == "rIdE%d" % k:
+                        r[2] = spelt
+            rid = "rIdSame%d" % k
+            rel = [rid, REL + rng.choice(["hyperlink", "hyperlink", "image", "oleObject", "attachedTemplate", "subDocument"]), spelt] + (["External"] if rng.random() < 0.9 else [])
+            rels.insert(rng.randint(0, len(rels)), rel)
+            same_target[0] += 1
+            if rel[1].endswith("hyperlink") and body and rng.random() < 0.6:
+                body.insert(rng.randint(0, len(body)), el("w:p", [], [el("w:hyperlink", [("r:id", rid)], [el("w:r", [], [el("w:t", [], ["as a separate file"])])])]))
+    for p in pics:
+        p["same_target"] = same_target[0]
     if body and rng.random() < 0.25:
         cut = rng.randint(0, len(body) - 1)
         body = body[:cut] + [el("w:tbl", [], [el("w:tr", [], [el("w:tc", [], body[cut:])])])]
@@ -566,6 +609,8 @@ def timed_audit(out, tier, seed, model_ok, base):
         for p in pics:
             k = p["how"] + ("-" + p["link"] if p["link"] else "") + ("-big" if p["data"] is not None and len(p["data"]) > 65536 else "")
             stats[k] = stats.get(k, 0) + 1
+        if pics and pics[0].get("same_target"):
+            stats["external-target-spelt-like-an-embedded-one"] = stats.get("external-target-spelt-like-an-embedded-one", 0) + 1
         if general and max(sizes or [0]) > 65536:
             stats["general-big"] = stats.get("general-big", 0) + 1
         out.count(key="timed-%d-%d" % (seed, i), nontrivial=bool(pics) or max(sizes or [0]) > 65536)
@@ -639,6 +684,7 @@ def run(out, tier, seed, model_ok):
         with open(os.path.join(base, "decoy%d.png" % k), "wb") as f:       # never referenced by any document
             f.write(bytes([7, k, 7]))
     exotic_world(base)
+    collision_world(base)
     # warm every lazy import the library does on first use
     g, parts, opts = C.api_case(1, {})
     D.run_real(D.build_docx(parts), {}, want_doc=True)
@@ -766,7 +812,9 @@ def run(out, tier, seed, model_ok):
                 "against the input's directory, at the moment the converter opens them; unopenable / unnamed cases give warnings; the event list equals the Lean ioTrace; "
                 "non-trivial = the document links an image; link targets also as they may be WRITTEN (percent escapes of space / dots / slashes / percent / non-ASCII, query, fragment, "
                 "backslash, dot segments, white space, no or unknown extension) with the literally named file and the file a decoding resolver would reach both present: "
-                "the path opened is exactly join(dirname(input), target), nothing is opened while the package is read or the raw text extracted")
+                "the path opened is exactly join(dirname(input), target), nothing is opened while the package is read or the raw text extracted; external relationships "
+                "(hyperlink, OLE link, linked picture ...) whose Target string equals the Target of an internal image relationship of the same part, relative and absolute, "
+                "with other files lying at those paths beside the document: embedded pictures come from the package, only real links are read")
     out.sample({"links": meta[0][0]["links"] if meta else None, "named": meta[0][0]["named"] if meta else None})
 
 
